@@ -99,9 +99,9 @@ section leaf
 variable {ow : Bool} {P X : St → Prop}
 
 /-- go: gcpkms.Signer.PublicKey on a key the precondition shows to be live -/
-theorem sgPubK_spec (k : String) (hP : Stable P) (hPX : ∀ s, P s → X s)
+theorem sgPubK_spec (env : KmsEnv) (k : String) (hP : Stable P) (hPX : ∀ s, P s → X s)
     (hk : ∀ s, P s → ∃ a, lookup s.keys k = some a) :
-    Tr sc ow P (sgPubK k) (fun a s => P s ∧ lookup s.keys k = some a) X := by
+    Tr sc ow P (sgPubK env k) (fun a s => P s ∧ lookup s.keys k = some a) X := by
   unfold sgPubK kmsPub
   refine Tr.wrap (P' := P) (.sgPub k) (fun s f h => hP s _ f (nd_sgPub k) h)
     (fun s h => hPX _ (hP s _ _ (nd_sgPub k) h)) ?_ (fun a s h => hPX s h.1)
@@ -172,27 +172,49 @@ def PhW (cfg : Cfg) (m0 : Manifest) (r c0 : Cert) (path0 : String) (K : String) 
 theorem PhW.stable (K : String) (j : Nat) : Stable (PhW cfg m0 r c0 path0 K j) :=
   fun s c f hc h => ⟨Ph.stable false none s c f hc h.1, h.2.1, h.2.2⟩
 
-/-- go: CreateCryptoKeyVersion — the version number after the last one, PENDING_GENERATION -/
-theorem kmsCreate_spec (env : KmsEnv) (n0 : Nat) :
+/-- after CreateCryptoKeyVersion: what is known of the new version `K`, by the state it was created in -/
+def PhC (cfg : Cfg) (m0 : Manifest) (r c0 : Cert) (path0 : String) (env : KmsEnv) (K : String) (s : St) : Prop :=
+  match env.created with
+  | .pending => PhW cfg m0 r c0 path0 K env.gen s
+  | .enabled => ∃ mat, Ph cfg m0 r c0 path0 false (some (K, mat)) s
+  | .disabled => Ph cfg m0 r c0 path0 false none s ∧ lookup s.keys K = none ∧ lookup s.kdead K = some .disabled
+  | .genFailed => Ph cfg m0 r c0 path0 false none s ∧ lookup s.keys K = none ∧ lookup s.kdead K = some .genFailed
+
+theorem PhC.weaken {env : KmsEnv} {K : String} {s : St} (h : PhC cfg m0 r c0 path0 env K s) :
+    Ph cfg m0 r c0 path0 false none s := by
+  unfold PhC at h
+  cases hc : env.created <;> rw [hc] at h
+  · exact h.1
+  · obtain ⟨mat, hm⟩ := h; exact hm.weaken
+  · exact h.1
+  · exact h.1
+
+/-- go: CreateCryptoKeyVersion — the version number after the last one, in the state the environment
+    creates versions in -/
+theorem kmsCreateVer_spec (env : KmsEnv) (n0 : Nat) :
     Tr sc ow (fun s => Ph cfg m0 r c0 path0 false none s ∧ s.kcount = n0 ∧
         lookup s.keys (verName env.parent (n0 + 1)) = none)
-      (kmsCreate env)
-      (fun kv s => kv = verName env.parent (n0 + 1) ∧ PhW cfg m0 r c0 path0 (verName env.parent (n0 + 1)) env.gen s)
+      (kmsCreateVer env)
+      (fun kv s => kv = verName env.parent (n0 + 1) ∧ PhC cfg m0 r c0 path0 env (verName env.parent (n0 + 1)) s)
       (Ph cfg m0 r c0 path0 false none) := by
-  unfold kmsCreate
+  unfold kmsCreateVer
   refine Tr.wrap (P' := fun s => Ph cfg m0 r c0 path0 false none s ∧ s.kcount = n0 ∧
       lookup s.keys (verName env.parent (n0 + 1)) = none) .kmsCreate
     (fun s f h => ⟨Ph.stable false none s _ f nd_kmsCreate h.1, h.2.1, h.2.2⟩)
-    (fun s h => Ph.stable false none s _ _ nd_kmsCreate h.1) ?_ (fun a s h => h.2.1)
+    (fun s h => Ph.stable false none s _ _ nd_kmsCreate h.1) ?_ (fun a s h => h.2.weaken)
   refine Triple.getSt_bind ?_
   intro s0 h0
-  refine Triple.bind (Q1 := fun _ s => PhW cfg m0 r c0 path0 (verName env.parent (n0 + 1)) env.gen s) ?_ ?_
+  refine Triple.bind (Q1 := fun _ s => PhC cfg m0 r c0 path0 env (verName env.parent (n0 + 1)) s) ?_ ?_
   · refine Triple.modSt _ ?_
     intro s hs
     subst hs
-    refine ⟨h0.1.frame rfl rfl rfl rfl, h0.2.2, ?_⟩
-    show lookup ((verName env.parent (s.kcount + 1), KState.pending env.gen) :: s.kdead) _ = _
-    rw [h0.2.1]; exact lookup_cons_self _ _ _
+    rw [h0.2.1]
+    unfold PhC createVer
+    cases hc : env.created
+    · exact ⟨h0.1.frame rfl rfl rfl rfl, h0.2.2, lookup_cons_self _ _ _⟩
+    · exact ⟨s.nextMat, h0.1.add_key h0.2.2 s.nextMat rfl rfl rfl rfl⟩
+    · exact ⟨h0.1.frame rfl rfl rfl rfl, h0.2.2, lookup_cons_self _ _ _⟩
+    · exact ⟨h0.1.frame rfl rfl rfl rfl, h0.2.2, lookup_cons_self _ _ _⟩
   intro _
   rw [h0.2.1]
   exact Triple.pure _ (fun s h => ⟨rfl, h⟩)
@@ -288,6 +310,90 @@ theorem kmsWait_spec (env : KmsEnv) (K : String) :
       refine Triple.throw (fun s h => ⟨h.1, Or.inr (and_benign_false ?_)⟩)
       unfold KmsEnv.benign; rw [h.2]; simp
 
+/-- go: GetCryptoKeyVersion on a version that is ENABLED -/
+theorem kmsGet_live (env : KmsEnv) (K : String) (mat : Nat) :
+    Tr sc ow (Ph cfg m0 r c0 path0 false (some (K, mat))) (kmsGet env K)
+      (fun o s => o = .enabled ∧ Ph cfg m0 r c0 path0 false (some (K, mat)) s)
+      (Ph cfg m0 r c0 path0 false none) := by
+  unfold kmsGet
+  refine Tr.wrap (P' := Ph cfg m0 r c0 path0 false (some (K, mat))) (.kmsGet K)
+    (fun s f h => Ph.stable false _ s _ f (nd_kmsGet K) h)
+    (fun s h => (Ph.stable false _ s _ _ (nd_kmsGet K) h).weaken) ?_ (fun o s h => h.2.weaken)
+  refine Triple.getSt_bind ?_
+  intro s0 h0
+  rw [h0.key K mat rfl]
+  exact Triple.pure _ (fun s hs => by subst hs; exact ⟨rfl, h0⟩)
+
+/-- go: GetCryptoKeyVersion on a version that is neither ENABLED nor PENDING_GENERATION -/
+theorem kmsGet_dead (env : KmsEnv) (K : String) (st : KState) (hst : ∀ n, st ≠ .pending n) :
+    Tr sc ow (fun s => Ph cfg m0 r c0 path0 false none s ∧ lookup s.keys K = none ∧ lookup s.kdead K = some st)
+      (kmsGet env K) (fun o s => o = .other ∧ Ph cfg m0 r c0 path0 false none s)
+      (Ph cfg m0 r c0 path0 false none) := by
+  unfold kmsGet
+  refine Tr.wrap (P' := fun s => Ph cfg m0 r c0 path0 false none s ∧ lookup s.keys K = none ∧ lookup s.kdead K = some st)
+    (.kmsGet K)
+    (fun s f h => ⟨Ph.stable false none s _ f (nd_kmsGet K) h.1, h.2.1, h.2.2⟩)
+    (fun s h => Ph.stable false none s _ _ (nd_kmsGet K) h.1) ?_ (fun o s h => h.2)
+  refine Triple.getSt_bind ?_
+  intro s0 h0
+  rw [h0.2.1, h0.2.2]
+  cases st with
+  | pending n => exact absurd rfl (hst n)
+  | disabled => exact Triple.pure _ (fun s hs => by subst hs; exact ⟨rfl, h0.1⟩)
+  | scheduled => exact Triple.pure _ (fun s hs => by subst hs; exact ⟨rfl, h0.1⟩)
+  | destroyed => exact Triple.pure _ (fun s hs => by subst hs; exact ⟨rfl, h0.1⟩)
+  | genFailed => exact Triple.pure _ (fun s hs => by subst hs; exact ⟨rfl, h0.1⟩)
+
+/-- go: waitForKeyVersionGen after CreateCryptoKeyVersion, whatever state the version was created in: the
+    loop ends with the version ENABLED and usable, or with an error that is a fault or the environment's doing -/
+theorem kmsWaitC_spec (env : KmsEnv) (K : String) :
+    Tr sc (ow && env.benign) (PhC cfg m0 r c0 path0 env K) (kmsWait env K (env.gen + 1))
+      (fun kv s => kv = K ∧ ∃ mat, Ph cfg m0 r c0 path0 false (some (K, mat)) s)
+      (Ph cfg m0 r c0 path0 false none) := by
+  have hdead : ∀ st : KState, (∀ n, st ≠ .pending n) → env.created.good = false →
+      Tr sc (ow && env.benign)
+        (fun s => Ph cfg m0 r c0 path0 false none s ∧ lookup s.keys K = none ∧ lookup s.kdead K = some st)
+        (kmsWait env K (env.gen + 1))
+        (fun kv s => kv = K ∧ ∃ mat, Ph cfg m0 r c0 path0 false (some (K, mat)) s)
+        (Ph cfg m0 r c0 path0 false none) := by
+    intro st hst hg
+    unfold kmsWait
+    refine Triple.bind (kmsGet_dead env K st hst) ?_
+    intro o
+    refine Triple.of_fact ?_
+    intro ho
+    subst ho
+    refine Triple.throw (fun s h => ⟨h, Or.inr (and_benign_false ?_)⟩)
+    unfold KmsEnv.benign; rw [hg]; simp
+  unfold PhC
+  cases hc : env.created with
+  | pending => exact kmsWait_spec env K (env.gen + 1) env.gen (Nat.lt_succ_self _)
+  | enabled =>
+    refine Triple.of_exists ?_
+    intro mat
+    unfold kmsWait
+    refine Triple.bind (kmsGet_live env K mat) ?_
+    intro o
+    refine Triple.of_fact ?_
+    intro ho
+    subst ho
+    exact Triple.pure _ (fun s h => ⟨rfl, mat, h⟩)
+  | disabled => exact hdead .disabled (fun n e => by cases e) (by rw [hc]; rfl)
+  | genFailed => exact hdead .genFailed (fun n e => by cases e) (by rw [hc]; rfl)
+
+/-- go: CreateCryptoKeyVersion as the client sees it: the second component (the state the response
+    reports) is unconstrained -/
+theorem kmsCreate_spec (env : KmsEnv) (n0 : Nat) :
+    Tr sc ow (fun s => Ph cfg m0 r c0 path0 false none s ∧ s.kcount = n0 ∧
+        lookup s.keys (verName env.parent (n0 + 1)) = none)
+      (kmsCreate env)
+      (fun p s => p.1 = verName env.parent (n0 + 1) ∧ PhC cfg m0 r c0 path0 env (verName env.parent (n0 + 1)) s)
+      (Ph cfg m0 r c0 path0 false none) := by
+  unfold kmsCreate
+  refine Triple.bind (kmsCreateVer_spec env n0) ?_
+  intro k
+  exact Triple.pure _ (fun s h => h)
+
 /-- go: gcpkms.Manager.CreateNewSigningKeyVersion -/
 theorem kmCreateK_spec (env : KmsEnv) (n0 : Nat) :
     Tr sc (ow && env.benign) (fun s => Ph cfg m0 r c0 path0 false none s ∧ s.kcount = n0 ∧
@@ -303,11 +409,11 @@ theorem kmCreateK_spec (env : KmsEnv) (n0 : Nat) :
     (fun s h => Ph.stable false none s _ _ nd_kmCreate h.1) ?_ (fun a s h => by
       obtain ⟨_, mat, hm⟩ := h; exact hm.weaken)
   refine Triple.bind (kmsCreate_spec env n0) ?_
-  intro k
+  intro p
   refine Triple.of_fact ?_
   intro hk
   rw [hk]
-  exact kmsWait_spec env _ (env.gen + 1) env.gen (Nat.lt_succ_self _)
+  exact kmsWaitC_spec env _
 
 /-- go: keyRequest.getCurrentInfo, from an authority instance that may not have read its manifest yet -/
 theorem getCurrentInfoK_spec (hca : cfg.ca = .gcsca) (kk : Option (String × Nat)) :
@@ -336,9 +442,9 @@ theorem createCertificateK_spec (env : KmsEnv) (req : Req) (subjPub : Nat) (kk :
       (fun c s => c = ⟨req.cn, req.serial, subjPub, r.pub⟩ ∧ Ph cfg m0 r c0 path0 true kk s)
       (Ph cfg m0 r c0 path0 true kk) := by
   unfold createCertificateK
-  have hpub : Tr sc (ow && env.benign) (Ph cfg m0 r c0 path0 true kk) (sgPubK m0.root)
+  have hpub : Tr sc (ow && env.benign) (Ph cfg m0 r c0 path0 true kk) (sgPubK env m0.root)
       (fun a s => a = r.pub ∧ Ph cfg m0 r c0 path0 true kk s) (Ph cfg m0 r c0 path0 true kk) :=
-    (sgPubK_spec m0.root (Ph.stable true kk) (fun _ h => h) (fun s h => ⟨_, h.inv.kroot⟩)).post
+    (sgPubK_spec env m0.root (Ph.stable true kk) (fun _ h => h) (fun s h => ⟨_, h.inv.kroot⟩)).post
       (fun a s h => ⟨by have := h.1.inv.kroot; rw [h.2] at this; exact (Option.some.inj this), h.1⟩)
   refine Triple.bind (Triple.repeatRun hpub cfg.pubPre) ?_
   intro pre
@@ -364,7 +470,7 @@ theorem signCertK_spec (hca : cfg.ca = .gcsca) (env : KmsEnv) (req : Req) (k : S
       (Ph cfg m0 r c0 path0 true (some (k, mat))) := by
   unfold signCertK
   refine Triple.bind (Q1 := fun a s => a = mat ∧ Ph cfg m0 r c0 path0 true (some (k, mat)) s) ?_ ?_
-  · exact (sgPubK_spec k (Ph.stable true _) (fun _ h => h) (fun s h => ⟨_, h.key k mat rfl⟩)).post
+  · exact (sgPubK_spec env k (Ph.stable true _) (fun _ h => h) (fun s h => ⟨_, h.key k mat rfl⟩)).post
       (fun a s h => ⟨by have := h.1.key k mat rfl; rw [h.2] at this; exact (Option.some.inj this), h.1⟩)
   intro sp
   refine Triple.of_fact ?_
@@ -677,12 +783,12 @@ theorem getCurrentInfo_frame (cfg : Cfg) : Frame (getCurrentInfo cfg) := by
   exact Frame.bind (caPsk_frame cfg) (fun _ => Frame.bind (caPrk_frame cfg) (fun _ =>
     Frame.bind (caIssuer_frame cfg) (fun _ => Frame.pure _)))
 
-theorem sgPubK_frame (k : String) : Frame (sgPubK k) := by unfold sgPubK kmsPub; frame
+theorem sgPubK_frame (env : KmsEnv) (k : String) : Frame (sgPubK env k) := by unfold sgPubK kmsPub; frame
 theorem sgSignK_frame (env : KmsEnv) (k : String) : Frame (sgSignK env k) := by unfold sgSignK kmsSign; frame
 
 theorem createCertificateK_frame (cfg : Cfg) (env : KmsEnv) (req : Req) (p : Nat) (ik : String) (iss : Option Cert) :
     Frame (createCertificateK cfg env req p ik iss) := by
-  have := sgPubK_frame ik
+  have := sgPubK_frame env ik
   have := sgSignK_frame env ik
   unfold createCertificateK; frame
 
@@ -695,7 +801,7 @@ theorem mutSetPrimary_frame (cfg : Cfg) (mu : Mut) (k : String) : Frame (mutSetP
 theorem signCertK_frame (cfg : Cfg) (env : KmsEnv) (req : Req) (mu : Mut) (iss : Cert) (k ik : String) :
     Frame (signCertK cfg env req mu iss k ik) := by
   unfold signCertK
-  exact Frame.bind (sgPubK_frame k) (fun _ => Frame.bind (createCertificateK_frame _ _ _ _ _ _) (fun _ =>
+  exact Frame.bind (sgPubK_frame env k) (fun _ => Frame.bind (createCertificateK_frame _ _ _ _ _ _) (fun _ =>
     Frame.bind (mutAddCert_frame _ _ _ _) (fun _ => Frame.pure _)))
 
 /-- a predicate on the usable keys and the counter survives every framed program -/
@@ -738,9 +844,9 @@ theorem lookup_erase_none {α : Type} (l : List (String × α)) (q k : String) (
   · rw [e]; exact lookup_erase_self l q
   · rw [lookup_erase_ne l q k e]; exact h
 
-theorem kmsCreate_hyg (env : KmsEnv) :
-    Triple sc (KHyg env) (kmsCreate env) (fun k s => KHygAt env k s) (KHyg env) (KHyg env) := by
-  unfold kmsCreate
+theorem kmsCreateVer_hyg (env : KmsEnv) :
+    Triple sc (KHyg env) (kmsCreateVer env) (fun k s => KHygAt env k s) (KHyg env) (KHyg env) := by
+  unfold kmsCreateVer
   refine Triple.wrap (P' := KHyg env) .kmsCreate (fun s f h => KHyg.of_KV rfl h) (fun s h _ => KHyg.of_KV rfl h)
     ?_ (fun a s _ h => h.1) (fun s _ h => h)
   refine Triple.getSt_bind ?_
@@ -750,9 +856,33 @@ theorem kmsCreate_hyg (env : KmsEnv) :
   refine Triple.modSt _ ?_
   intro s hs
   subst hs
-  refine ⟨?_, s.kcount + 1, Nat.le_refl _, rfl⟩
-  intro n hn
-  exact h0 n (by show s.kcount < n; have : s.kcount + 1 < n := hn; omega)
+  have hk : ∀ s' : St, s'.keys = s.keys → s'.kcount = s.kcount + 1 →
+      KHygAt env (verName env.parent (s.kcount + 1)) s' := by
+    intro s' h1 h2
+    refine ⟨?_, s.kcount + 1, by rw [h2]; exact Nat.le_refl _, rfl⟩
+    intro n hn
+    rw [h1]
+    exact h0 n (by rw [h2] at hn; omega)
+  unfold createVer
+  cases env.created
+  · exact hk _ rfl rfl
+  · refine ⟨?_, s.kcount + 1, Nat.le_refl _, rfl⟩
+    intro n hn
+    have hn' : s.kcount + 1 < n := hn
+    have hne : verName env.parent (s.kcount + 1) ≠ verName env.parent n := by
+      intro e
+      have := verName_inj _ _ _ e
+      omega
+    show lookup ((verName env.parent (s.kcount + 1), s.nextMat) :: s.keys) (verName env.parent n) = none
+    rw [lookup_cons_ne _ _ _ _ hne]
+    exact h0 n (by omega)
+  · exact hk _ rfl rfl
+  · exact hk _ rfl rfl
+
+theorem kmsCreate_hyg (env : KmsEnv) :
+    Triple sc (KHyg env) (kmsCreate env) (fun p s => KHygAt env p.1 s) (KHyg env) (KHyg env) := by
+  unfold kmsCreate
+  exact Triple.bind (kmsCreateVer_hyg env) (fun k => Triple.pure _ (fun s h => h))
 
 theorem kmsGet_hyg (env : KmsEnv) (k : String) :
     Triple sc (KHygAt env k) (kmsGet env k) (fun _ s => KHygAt env k s) (KHyg env) (KHyg env) := by
@@ -805,7 +935,7 @@ theorem kmCreateK_hyg (env : KmsEnv) :
   unfold kmCreateK
   refine Triple.wrap (P' := KHyg env) .kmCreate (fun s f h => KHyg.of_KV rfl h) (fun s h _ => KHyg.of_KV rfl h)
     ?_ (fun a s _ h => h) (fun s _ h => h)
-  exact Triple.bind (kmsCreate_hyg env) (fun k => kmsWait_hyg env k _)
+  exact Triple.bind (kmsCreate_hyg env) (fun p => kmsWait_hyg env p.1 _)
 
 theorem kmDestroyK_hyg (env : KmsEnv) (k : String) :
     Triple sc (KHyg env) (kmDestroyK k) (fun _ s => KHyg env s) (KHyg env) (KHyg env) := by
@@ -952,6 +1082,58 @@ theorem rotateKms_run_facts (cfg : Cfg) (env : KmsEnv) (req : Req) (sc : Nat →
   | crash s' =>
     rw [hr] at main hyg
     exact ⟨⟨⟨Inv_of_withNew hca main.1.1, hyg⟩, main.1.2.1, main.1.2.2⟩, main.2⟩
+
+/-! ### the state reported by CreateCryptoKeyVersion's response plays no role
+
+gcpkms.Manager.CreateNewSigningKeyVersion passes only `key.GetName()` on to waitForKeyVersionGen. -/
+
+theorem kmsWait_resp (env : KmsEnv) (o : Option KObs) (k : String) (fuel : Nat) :
+    kmsWait { env with resp := o } k fuel = kmsWait env k fuel := by
+  induction fuel with
+  | zero => rfl
+  | succ n ih =>
+    unfold kmsWait
+    rw [ih]
+    rfl
+
+theorem bind_pure_bind {α β γ : Type} (m : Run α) (g : α → β) (f : β → Run γ) :
+    ((m >>= fun a => (pure (g a) : Run β)) >>= f) = (m >>= fun a => f (g a)) := by
+  funext sc s
+  show (match (match m sc s with
+      | .ok a s' => Res.ok (g a) s'
+      | .err s' => .err s'
+      | .crash s' => .crash s') with
+    | .ok b s' => f b sc s'
+    | .err s' => .err s'
+    | .crash s' => .crash s') = (match m sc s with
+    | .ok a s' => f (g a) sc s'
+    | .err s' => .err s'
+    | .crash s' => .crash s')
+  cases m sc s <;> rfl
+
+theorem kmCreateK_eq (env : KmsEnv) :
+    kmCreateK env = wrap .kmCreate (kmsCreateVer env >>= fun k => kmsWait env k (env.gen + 1)) := by
+  unfold kmCreateK kmsCreate
+  exact congrArg (wrap .kmCreate) (bind_pure_bind _ _ _)
+
+theorem kmCreateK_resp (env : KmsEnv) (o : Option KObs) : kmCreateK { env with resp := o } = kmCreateK env := by
+  rw [kmCreateK_eq, kmCreateK_eq]
+  have : ∀ k, kmsWait { env with resp := o } k (env.gen + 1) = kmsWait env k (env.gen + 1) := fun k => kmsWait_resp env o k _
+  show wrap .kmCreate (kmsCreateVer env >>= fun k => kmsWait { env with resp := o } k (env.gen + 1)) = _
+  simp only [this]
+
+theorem rotateKeyKms_resp (cfg : Cfg) (env : KmsEnv) (o : Option KObs) (req : Req) :
+    rotateKeyKms cfg { env with resp := o } req = rotateKeyKms cfg env req := by
+  unfold rotateKeyKms
+  rw [kmCreateK_resp]
+  rfl
+
+/-- when the response reports PENDING_GENERATION the changed CreateNewSigningKeyVersion is the shipped one -/
+theorem kmCreateKTrust_pending (env : KmsEnv) (h : env.respObs = .pending) : kmCreateKTrust env = kmCreateK env := by
+  unfold kmCreateKTrust kmCreateK kmsCreate
+  refine congrArg (wrap .kmCreate) ?_
+  rw [bind_pure_bind, bind_pure_bind]
+  simp only [h, if_true]
 
 theorem InvKms_reload (cfg : Cfg) (env : KmsEnv) (s : St) : InvKms cfg env s.reload ↔ InvKms cfg env s := by
   unfold InvKms
